@@ -79,15 +79,16 @@ CLAIMED["C20"] = {
 
 # additions of later rounds (DESIGN.md 10.6, rounds 4-5), appended to the texts above
 EXTRA = {
-    "C01": " Later additions: all-symbolic circuits (the library's sympy lifting path) compared after substituting a random point; failing allocations (MemoryError at a scheduled numpy allocation requested by the library) as a fault kind - the error may propagate or be coped with, the answer may never be wrong; back-ends that evolve the default state buffer in place.",
-    "C04": " Later additions: registers of 9-10 qubits with randomness on the lowest-numbered qubits; states the Wavefunction class accepts although their probabilities sum to 1-d, sampled up to 3e5 times directly and through runners (the sampler may refuse, it may never return an outcome of zero amplitude); the adversarial generator delegates every method other than choice() to real numpy.",
-    "C05": " Later additions: saves through a caller-owned handle positioned after text the caller wrote itself (the caller's bytes must survive every outcome of the save, the document must load from that position).",
-    "C12": " Later additions: drift sequences (many accepted assignments each inside the tolerance, all in one direction), boolean-mask and negative-step indices, containers assigned at integer indices (found F12), pairs of wavefunctions living on one shared array, Dicke states up to 11 qubits.",
-    "C13": " Later additions: weights held in caller-owned containers (list, tuple, float64/int64 arrays) reused across calls; an adversarial draw policy returning distinct outcomes in ascending probability.",
-    "C14": " Later additions: tuple sequences for batch arguments; circuit objects that live for one call only (addresses are reused).",
-    "C15": " Later additions: a peer that recycles the result objects it returned before, a peer that declines batch requests, circuits with idle upper qubits in the binding step.",
-    "C17": "",
-    "C20": " Later additions: after every call the client edits the (second) result - operators, matrices, sparse matrices, arrays, lists, dicts, wavefunctions, measurements, distributions - and no earlier object may change, and a third call must still give the first answer; distributions kept as given (normalize=False); the client also edits its own containers after handing them to the library.",
+    "C01": " Later additions: all-symbolic circuits (the library's sympy lifting path) compared after substituting a random point; failing allocations (MemoryError at a scheduled numpy allocation requested by the library) as a fault kind - the error may propagate or be coped with, the answer may never be wrong; back-ends that evolve the default state buffer in place. Rounds 8-9: registers of 9-10 qubits; a client evolving one state buffer layer by layer (same ndarray object, content replaced by the previous answer); the peer-partition oracle only demands that what the peer was handed is the native operations in order on the full register (an answer given without consulting the peer is judged by its value alone).",
+    "C04": " Later additions: registers of 9-10 qubits with randomness on the lowest-numbered qubits; states the Wavefunction class accepts although their probabilities sum to 1-d, sampled up to 3e5 times directly and through runners (the sampler may refuse, it may never return an outcome of zero amplitude); the adversarial generator delegates every method other than choice() to real numpy. Rounds 8-9: parametric circuits - the symbolic state vector at a point, its Wavefunction.bind and the views of the circuit bound beforehand must agree; peer failures inside any view (state vector, exact expectation, exact distribution, samples) followed by the repeated request; back-ends working in place; echo gate pairs on permuted qubits.",
+    "C05": " Later additions: saves through a caller-owned handle positioned after text the caller wrote itself (the caller's bytes must survive every outcome of the save, the document must load from that position). Rounds 8-9: Python complex parameters with 17-digit components, plain symbols that look like flattened indexed ones (x_3 next to x[3]), dictionary forms edited by the client between two serialisations.",
+    "C12": " Later additions: drift sequences (many accepted assignments each inside the tolerance, all in one direction), boolean-mask and negative-step indices, containers assigned at integer indices (found F12), pairs of wavefunctions living on one shared array, Dicke states up to 11 qubits. Rounds 8-9: non-finite amplitudes (found F13); allocation faults (MemoryError from a numpy call made while an assignment or binding is re-validated): the object must be exactly as before or, for a legal assignment, exactly as completed.",
+    "C13": " Later additions: weights held in caller-owned containers (list, tuple, float64/int64 arrays) reused across calls; an adversarial draw policy returning distinct outcomes in ascending probability. Rounds 8-9: numpy integer sample counts, maxima and shot numbers; foreign (sequence-like, tuple) circuits through expand_sample_sizes, identity of every returned entry.",
+    "C14": " Later additions: tuple sequences for batch arguments; circuit objects that live for one call only (addresses are reused). Rounds 8-9: exact counters after a mid-batch failure of the stub peer; records must read back (circuit_from_dict) as the circuit that ran.",
+    "C15": " Later additions: a peer that recycles the result objects it returned before, a peer that declines batch requests, circuits with idle upper qubits in the binding step. Rounds 8-9: operators re-weighted and extended in place between two exact evaluations, complex constants, tiny-weight terms, result objects edited by the client.",
+    "C11": " Rounds 8-9: the client re-weights the operator it parsed from printed text, then the original is printed and parsed again; bool-bit measurement sets; transient write faults.",
+    "C17": " Rounds 8-9: transient write faults (EINTR/EAGAIN after a partial write); supports of hundreds to thousands of outcomes on 10-12 qubits (distance laws and marginals).",
+    "C20": " Later additions: after every call the client edits the (second) result - operators, matrices, sparse matrices, arrays, lists, dicts, wavefunctions, measurements, distributions - and no earlier object may change, and a third call must still give the first answer; distributions kept as given (normalize=False); the client also edits its own containers after handing them to the library. Rounds 8-9: history independence - every call is repeated on pristine twins of its arguments rebuilt from their provenance and must give the same answer; compositions (bind / replace_params / wrap, then evaluate) as operations; saves of operators and circuits; Dicke / zero states.",
 }
 for _pid, _t in EXTRA.items():
     CLAIMED[_pid]["text"] += _t
